@@ -464,6 +464,11 @@ AMBIENT = ['use_table', 'use_pass_list', 'pinned32', 'pinned_rtz16', 'calls_pinn
 # functions that pin their own context with @fp.fpy(ctx=...) (a common idiom): the caller's ctx= must not matter
 PINNED = ['pinned32', 'pinned_rtz16', 'calls_pinned']
 
+# functions with operations outside any `with` of their own: what a stale or leaked ambient context would change
+BARE = ['helper_noctx', 'tenth', 'boosted', 'calls', 'early', 'nested', 'uses_closure']
+# programs whose failure happens below a call they make (in a callee, in a primitive)
+FAIL_BELOW = ['calls_failing', 'via_picky']
+
 # the special cases the workload was written for, rotated through by the 'focus' run shape
 SPECIAL = ['pinned32', 'narrow', 'tenth', 'use_table', 'uses_closure', 'deep', 'ret_param', 'via_prim', 'calls_failing',
            'calls', 'pinned_rtz16', 'narrow_neg', 'tenth16', 'use_pass_list', 'shadowing', 'ident_pair', 'ret_pair',
